@@ -30,6 +30,8 @@ def cases(draw, tier="quick"):
     if P["codemode"] == ["input", "alloc"]:
         P["codemode"] = ["alloc", "input"]
     payload = st.one_of(st.binary(max_size=30), st.sampled_from([b"same", b""]))
+    # (now and then a message of a few kilobytes, or around a power of two)
+    payload = st.one_of(payload, payload, payload, st.sampled_from([2008, 2009, 2048, 4096, 5000, 16384]).map(lambda n: b"\xa7" * n))
     P["sends"] = [draw(st.lists(payload, max_size=6)), draw(st.lists(payload, max_size=6))]
     P["drops"] = draw(st.integers(1, 8))
     P["w_drop"] = draw(st.sampled_from([1, 2, 4]))
